@@ -156,6 +156,19 @@ func ruleR081(c *Ctx) {
 				}))
 				producer := call.Args[0]
 				var problems []string
+				// the start of an iteration: the statements of the producer factory itself (func(st) iterator.Producer),
+				// outside the producer and the callbacks it returns, run when the first element is pulled - a
+				// consuming call there materialises a whole list before the first element is delivered
+				if plit, ok := ast.Unparen(producer).(*ast.FuncLit); ok {
+					inspectNoLit(plit.Body, func(y ast.Node) bool {
+						if t, ok := y.(*ast.CallExpr); ok {
+							if cal := Callee(info, t); cal != nil && la.consuming[cal] {
+								problems = append(problems, fmt.Sprintf("%s (at %s) materialises a list when the iteration starts, before the first element is delivered", nodeStr(c.Fset, t.Fun), c.posStr(t.Pos())))
+							}
+						}
+						return true
+					})
+				}
 				ast.Inspect(funcBody(fn), func(y ast.Node) bool {
 					if y == ast.Node(producer) {
 						return false // inside the lazy producer everything is allowed
@@ -507,5 +520,62 @@ func ruleR101stages(c *Ctx) {
 	}
 	if n < 15 {
 		c.Undecided("value#list-producers", token.NoPos, "only %d list producer literals found", n)
+	}
+}
+
+// ---------------------------------------------------------------------------
+// R08.4 a list is not rendered into a message
+
+// ruleR084: List.String() iterates the list (up to 11 elements) with a stack
+// of its own. Handing a *List to a formatting function - typically to make an
+// error message friendlier - therefore starts a second iteration of a lazy
+// list: the stage closures run again, an error of an element behind the
+// decisive one leaks into the message, and a one-shot source (multiUse) reports
+// "can only be used once" instead of the real error.
+func ruleR084(c *Ctx) {
+	vp := c.Pkg("value")
+	if vp == nil {
+		c.Undecided("package value", token.NoPos, "not found")
+		return
+	}
+	listT := LookupType(vp, "List")
+	if listT == nil {
+		c.Undecided("value.List", token.NoPos, "not found")
+		return
+	}
+	n, calls := 0, 0
+	for _, pkg := range evalPkgs(c) {
+		info := pkg.TypesInfo
+		for _, f := range pkg.Syntax {
+			ast.Inspect(f, func(x ast.Node) bool {
+				call, ok := x.(*ast.CallExpr)
+				if !ok {
+					return true
+				}
+				cal := Callee(info, call)
+				if cal == nil || cal.Pkg() == nil || (cal.Pkg().Path() != "fmt" && cal.Pkg().Path() != "log") {
+					return true
+				}
+				calls++
+				for _, a := range call.Args {
+					t := info.TypeOf(a)
+					if pt, ok := t.(*types.Pointer); ok {
+						if nm := namedOf(pt.Elem()); nm != nil && nm.Obj() == listT {
+							n++
+							key := fmt.Sprintf("%s#renders-list[%d]", c.FuncName(call)+litSuffix(c, c.EnclosingFunc(call)), n)
+							c.Violation(key, call.Pos(), "the list %s is handed to %s.%s, which renders it with List.String(): the (lazy) list is iterated a second time, its stage closures run again, errors of elements behind the decisive one leak into the message and a one-shot source fails with 'can only be used once'", nodeStr(c.Fset, a), cal.Pkg().Name(), cal.Name())
+						}
+					}
+				}
+				return true
+			})
+		}
+	}
+	if calls < 20 {
+		c.Undecided("value#formatting-calls", token.NoPos, "only %d calls of formatting functions found", calls)
+		return
+	}
+	if n == 0 {
+		c.OK("value#lists-in-messages", token.NoPos, "none of the %d calls of fmt/log functions in evaluation code is handed a *List", calls)
 	}
 }
